@@ -625,6 +625,8 @@ class FchkFree(Adapter):
             "extra": {"polarizability_tensor": sym(3, sc)},
             "one_rdms": {k: sym(nb) for k in ["scf", "scf_spin", "post_scf_ao", "post_scf_spin_ao"] if rng.random() < 0.5},
         }
+        if any(k.startswith("post") for k in kw["one_rdms"]) and not any(t in (kw["lot"] or "NA").upper() for t in ("MP2", "MP3", "CC", "CI")):
+            kw["lot"] = rng.choice(["MP2", "ccsd(t)"])  # FCHK labels a post-SCF density by its method (unlabelled case: _fchkw.postscf_eval)
         return IOData(**kw)
 
     def compare(self, x, y):
